@@ -2499,6 +2499,9 @@ def _get_slice_arguments(
         return fst.FST(arguments(posonlyargs=[], args=[], kwonlyargs=[], kw_defaults=[], defaults=[]),
                        [''], None, from_=self)
 
+    if cut and fst.FST.get_option('args_as', options):  # the `args_as` conversion of the slice can refuse, find that out on a copy before anything is cut
+        _get_slice_arguments(self, start, stop, field, False, options)
+
     body, _, _, start, stop = _make_arguments_allargs_w_markers(self, None, start, stop)
     len_body = len(body)
     loc_first = body[start].f._loc_argument(True)
